@@ -40,7 +40,7 @@ ASSUMPTIONS = [
 ]
 BOUNDS = {
     "quick": "full rhs menu: length<=3; structural menu {leaf,s,s+t}: length<=3; ODE menu: length<=3 (+ODE)",
-    "thorough": "full rhs menu: length<=3; structural menu: length<=4; ODE menu: length<=4 (+ODE)",
+    "thorough": "full rhs menu: length<=3; structural menu: length<=4; ODE menu: length<=3 (3 rate tuples) and length<=4 (1 rate tuple)",
 }
 
 SYMS = ["A", "B", "C"]
@@ -747,7 +747,7 @@ def check_model_case(prog, layout):
 # ----------------------------------------------------------------------------- runner API
 PLANS = {
     "quick": [("fullq", 3, False), ("struct", 3, False), ("ode", 2, True), ("ode1", 3, True)],
-    "thorough": [("full", 3, False), ("struct", 4, False), ("ode", 4, True)],
+    "thorough": [("full", 3, False), ("struct", 4, False), ("ode", 3, True), ("ode1", 4, True)],
 }
 
 
